@@ -386,7 +386,7 @@ impl GenKnobs {
             hex: 0x1000_0000 + t.draw(0xefff_ffff) as u32,
             canaries: true,
             wild_strings: t.chance(2, 3),
-            max_str: *t.pick(&[4u64, 16, 16, 64, 300]),
+            max_str: *t.pick(&[4u64, 16, 16, 64, 300, 300, 2500]),
             doc_budget: *t.pick(&[4i64, 12, 12, 40, 40, 150]),
             header_nonascii: t.chance(1, 4),
         }
@@ -556,9 +556,17 @@ impl<K: Gen + Ord, V: Gen> Gen for BTreeMap<K, V> {
     }
 }
 
+impl Gen for Bytes {
+    fn gen(t: &mut Tape, _: &GenCx<'_>) -> Bytes {
+        let max = *t.pick(&[4u64, 24, 24, 200, 1400]);
+        Bytes::from(ir::gen_bytes(t, max))
+    }
+}
+
 impl Gen for BinVal {
     fn gen(t: &mut Tape, _: &GenCx<'_>) -> BinVal {
-        let max = *t.pick(&[8u64, 64, 64, 600]);
+        // heavy-tailed: streaming bodies that span many writes / chunks / buffer sizes
+        let max = *t.pick(&[8u64, 64, 64, 600, 600, 9000, 70_000]);
         BinVal::of(ir::gen_bytes(t, max))
     }
 }
